@@ -868,6 +868,8 @@ fn run_line(line: &str) -> String {
         "g1" if toks.len() >= 2 => g1::op(toks[1], &toks[2..]),
         "g2" if toks.len() >= 2 => g2::op(toks[1], &toks[2..]),
         "mfq" if toks.len() >= 2 => mfq_op(toks[1], &toks[2..]),
+        "lfq" if toks.len() >= 2 => mfq_op(toks[1], &toks[2..]),
+        "lfr" if toks.len() >= 2 => mfr_op(toks[1], &toks[2..]),
         "mfr" if toks.len() >= 2 => mfr_op(toks[1], &toks[2..]),
         "repr" if toks.len() >= 3 => match toks[1] {
             "6" => repr_op::<FqRepr>(&|l| repr6(l), 6, toks[2], &toks[3..]),
